@@ -40,6 +40,12 @@ def native_replay(api, effect, outcome, c):
 def run(prop, tier, apis=None):
     t0 = time.time()
     res = {"violations": [], "inconclusive": [], "queries": 0, "nontrivial": 0, "coverage": {}, "assumptions": []}
+    if apis == ["abort_nostd"]:
+        res["coverage"] = {"engine": "MIR symbolic execution with unwind edges (wmm/unwind.py)", "samples": []}
+        run_abort_nostd(prop, res)
+        res["assumptions"] = ["Engine U: core's panic entry points start unwinding; a panic raised inside a clean-up block (`unwind terminate`) terminates the process"]
+        log(f"[{prop}] unwinding engine (no_std abort): {res['queries']} paths, {len(res['violations'])} violate, {len(res['inconclusive'])} inconclusive")
+        return res
     try:
         mirpath, mircmd = wmm_engine.dump_mir()
     except Exception as e:
@@ -110,7 +116,83 @@ def run(prop, tier, apis=None):
     return res
 
 
+def run_abort_nostd(prop, res):
+    """C16, no_std configuration: the crate-private abort() must terminate the process on every path."""
+    try:
+        mirpath, mircmd = wmm_engine.dump_mir(features=())
+    except Exception as e:
+        res["inconclusive"].append({"error": "no_std MIR dump failed: " + str(e)})
+        return
+    sys.path.insert(0, os.path.join(VERIF, "wmm"))
+    import unwind
+    try:
+        exits = unwind.check_abort_nostd(open(mirpath).read())
+    except Exception as e:
+        res["inconclusive"].append({"error": f"unwinding engine cannot encode no_std abort(): {type(e).__name__}: {e}"})
+        return
+    finally:
+        for f in (mirpath, mirpath + ".err"):
+            try:
+                os.remove(f)
+            except OSError:
+                pass
+    res["queries"] += len(exits)
+    res["nontrivial"] += len(exits)
+    res["coverage"]["nostd_abort"] = {"mir_dump_cmd": mircmd, "paths": [{"ends_by": e, "steps": t} for e, t in exits],
+                                      "claim": "every path through the no_std abort() ends in process termination (panic while panicking)"}
+    bad = [(e, t) for e, t in exits if e != "abort"]
+    if not exits:
+        res["inconclusive"].append({"error": "no path through no_std abort() was found"})
+    for e, t in bad:
+        nat = native_nostd()
+        reproduced = any(r["exit"] == 1 and "SURVIVED" in r["output"] for r in nat)
+        key = f"{prop}:unwind:abort_nostd:{e}"
+        os.makedirs(os.path.join(REPLAYS, prop), exist_ok=True)
+        path = os.path.join(REPLAYS, prop, "unwind-abort-nostd.json")
+        with open(path, "w") as f:
+            json.dump({"engine": "unwind", "property": prop, "key": key, "api": "abort (no_std)", "exit": e, "steps": t,
+                       "native_replay": {"args": ["abort_nostd"], "runs": nat, "reproduced": reproduced},
+                       "repo_fingerprint": repo_fingerprint()}, f, indent=1)
+        if reproduced:
+            res["violations"].append({"key": key, "scenario": f"no_std abort() [{' ; '.join(t)}] leaves by {e}",
+                                      "what": "the overflow guard does not terminate the process in the no_std build: the panic is catchable (native replay: the process survived a clone past the limit)", "replay": path})
+        else:
+            res["inconclusive"].append({"error": f"no_std abort() leaves by {e} in the model but the native run was killed as required (see {path})"})
+
+
+def native_nostd():
+    env = dict(os.environ, CARGO_NET_OFFLINE="true", CARGO_TARGET_DIR=os.path.join(TARGET, "native"))
+    env.pop("RUSTFLAGS", None)
+    crate = os.path.join(VERIF, "native_nostd")
+    if REPO != "/repo":
+        import shutil
+        c2 = os.path.join(WORK, "native-nostd-copy")
+        shutil.rmtree(c2, ignore_errors=True)
+        shutil.copytree(crate, c2)
+        t = open(os.path.join(c2, "Cargo.toml")).read().replace('path = "/repo"', f'path = "{REPO}"')
+        open(os.path.join(c2, "Cargo.toml"), "w").write(t)
+        crate = c2
+    out = []
+    for prof in ([], ["--release"]):
+        b = subprocess.run(["cargo", "build", "--offline", "-q"] + prof, cwd=crate, env=env, capture_output=True, text=True)
+        if b.returncode != 0:
+            out.append({"profile": "release" if prof else "dev", "exit": None, "output": b.stderr[-300:]})
+            continue
+        exe = os.path.join(env["CARGO_TARGET_DIR"], "release" if prof else "debug", "native_nostd")
+        r = subprocess.run([exe], capture_output=True, text=True)
+        out.append({"profile": "release" if prof else "dev", "exit": r.returncode, "output": (r.stdout + r.stderr)[-200:].strip()})
+    return out
+
+
 def replay(prop, art):
+    if art.get("api") == "abort (no_std)":
+        nat = native_nostd()
+        rep = any(r["exit"] == 1 and "SURVIVED" in r["output"] for r in nat)
+        log(f"[{prop}] native replay (no_std clone past the limit): " + "; ".join(f"{r['profile']}: exit {r['exit']} {r['output'][-80:]}" for r in nat))
+        if rep:
+            log(f"VIOLATION property={prop} replay={art.get('how_to_replay', '')}")
+            return EXIT_VIOLATION
+        return EXIT_OK
     a = art["native_replay"]["args"]
     nat = native_replay(*a)
     rep = any(r["exit"] not in (0, None) for r in nat)
